@@ -173,34 +173,26 @@ def run(ctx):
         ctx.ob("R1", "reject|%s" % q, site.loc(), "%s: %s" % (q, "all %d rejecting paths carry the negation of a conjunct (it rejects nothing else)" % n_rej if not rej_bad else "rejects for a reason outside its grammar: " + "; ".join("%s at %s %s" % r for r in rej_bad[:3])), not rej_bad and n_rej > 0)
     ctx.floor("R1.validators", 8)
 
-    # ---- R4 predicate / raiser pairs
+    # ---- R4 predicate / raiser pairs: both decide exactly the same grammar (hence agree on every
+    # input), and the predicate never raises
+    pair_kind = {"hex_string": ("hex", None), "hex_key": ("hex", 64), "gpg_fingerprint": ("hex", 40), "gpg_signature": ("gpg", None), "signature": ("raw|gpg", None), "signable": ("envelope", None)}
     for stem in PAIRS:
         pq, rq = "common.is_" + stem, "common.checkformat_" + stem
-        pf, rf = prog.func(pq), prog.func(rq)
-        psm, rsm = eng.summary(pf), eng.summary(rf)
-        x = P(psm.params[0])
-        site = fn_site(eng, psm)
+        prog.func(pq), prog.func(rq)
+        kind, n = pair_kind[stem]
+        p_ok, p_why = predicate_exact(eng, pq, kind, n)
+        r_ok, r_why = raiser_exact(eng, rq, kind, n)
+        esc = sorted({xx.exc for xx, _c in eng.walk(pq).escapes})
+        ok = p_ok and r_ok and not esc
+        site = fn_site(eng, eng.walk(pq))
         ctx.count("R4.pairs")
-        if stem == "signable":
-            # here the raiser is defined through the predicate: raises iff predicate is False
-            rx = P(rsm.params[0])
-            call = eng.repo_call(pq, rx)
-            ok = all(State(facts=p.facts).holds(("ret", call, True)) for p in rsm.paths if p.kind == "return") and all(State(facts=set(p.facts) | set(p.value.conds)).holds(("ret", call, False)) for p in rsm.paths if p.kind == "raise") and not psm.escapes
-            ctx.ob("R4", "pair|%s" % stem, site.loc(), "checkformat_%s returns iff is_%s is True and raises iff it is False; the predicate itself never raises" % (stem, stem) if ok else "checkformat_%s and is_%s can disagree" % (stem, stem), ok)
-            continue
-        call = eng.repo_call(rq, x)
-        t_ok = all(State(facts=p.facts).holds(("ok", call)) for p in psm.paths if p.kind == "return" and p.value == C(True))
-        f_ok = all(State(facts=p.facts).holds(("notok", call)) for p in psm.paths if p.kind == "return" and p.value == C(False))
-        other = [p for p in psm.paths if p.kind == "return" and p.value not in (C(True), C(False))]
-        esc = sorted({xx.exc for xx, _c in psm.escapes})
-        ok = t_ok and f_ok and not other and not esc and any(p.value == C(True) for p in psm.paths if p.kind == "return")
         ctx.ob(
             "R4",
             "pair|%s" % stem,
             site.loc(),
-            "is_%s is True exactly when checkformat_%s returns and False exactly when it raises; its handler covers the raiser's whole escape set %s" % (stem, stem, sorted({xx.exc for xx, _c in rsm.escapes}))
+            "is_%s is True exactly on the values checkformat_%s accepts (both decide the '%s' grammar%s) and never raises" % (stem, stem, kind, "" if n is None else " with length %d" % n)
             if ok
-            else "is_%s and checkformat_%s can disagree (%s)" % (stem, stem, "escapes %s" % esc if esc else "a return does not follow the raiser's outcome"),
+            else "is_%s and checkformat_%s can disagree: %s" % (stem, stem, "; ".join(x for x in (("predicate: " + p_why) if not p_ok else "", ("raiser: " + r_why) if not r_ok else "", ("predicate may raise %s" % esc) if esc else "") if x)),
             ok,
         )
     ctx.floor("R4.pairs", 6)
@@ -241,6 +233,34 @@ def predicate_exact(eng, q, kind, n=None):
     return (not bad, "; ".join(sorted(set(bad)))[:300])
 
 
+def raiser_exact(eng, q, kind, n=None):
+    """does the raising validator q return exactly on values of the grammar `kind`?"""
+    prog = eng.prog
+    fi = prog.funcs.get(q)
+    if fi is None:
+        return False, "function %s not found" % q
+    inline = frozenset(x for x, f in prog.funcs.items() if f.mod.short == "common") - {q}
+    sm = eng.summary(fi, None, inline)
+    x = P(sm.params[0])
+    bad = []
+    n_acc = 0
+    for p in sm.paths:
+        facts = set(p.facts)
+        if p.kind == "raise":
+            facts |= set(p.value.conds)
+        st = State(facts=facts)
+        if p.kind == "return":
+            n_acc += 1
+            ms = _missing(kind, st, x, n)
+            if ms:
+                bad.append("an accepting path does not establish: " + ", ".join(ms))
+        elif not _refuted(kind, facts, st, x, n):
+            bad.append("rejects (%s) outside the grammar" % p.value.exc)
+    if n_acc == 0:
+        bad.append("never accepts")
+    return (not bad, "; ".join(sorted(set(bad)))[:300])
+
+
 def _missing(kind, st, x, n):
     if kind in ("hex", "hexpred"):
         return hex_missing(st, x, n)
@@ -250,19 +270,13 @@ def _missing(kind, st, x, n):
         a, b = raw_missing(st, x), gpg_missing(st, x)
         return [] if (not a or not b) else ["neither raw (%s) nor OpenPGP (%s) shape" % (",".join(a), ",".join(b))]
     if kind == "keylist":
-        out = []
-        if not st.holds(("type", x, frozenset(["list"]))):
-            out.append("list")
-        good = False
-        for el, body in forall_bodies(st, x):
-            if not hex_missing(State(facts=set(body) | st.facts), el, 64):
-                good = True
-        if not good:
-            out.append("every element a hex key")
-        ls, ll = CallT("builtin:len", [CallT("builtin:set", [x])]), CallT("builtin:len", [x])
-        if not (st.holds(("eq", ls, ll)) or st.holds(("eq", ll, ls))):
-            out.append("no duplicates")
-        return out
+        from .kinds import keylist_missing
+
+        return keylist_missing(st, x)
+    if kind == "envelope":
+        from .vs import envelope
+
+        return envelope(st, x)
     return ["unknown spec"]
 
 
@@ -274,16 +288,18 @@ def _refuted(kind, facts, st, x, n):
     if kind == "raw|gpg":
         return raw_refuted(facts, x) and gpg_refuted(facts, x)
     if kind == "keylist":
-        if any(f[0] == "nottype" and f[1] == x for f in facts):
-            return True
-        ls, ll = CallT("builtin:len", [CallT("builtin:set", [x])]), CallT("builtin:len", [x])
-        if any(f[0] == "ne" and {f[1], f[2]} == {ls, ll} for f in facts):
-            return True
-        # an element fails the key grammar (raise from inside the loop)
+        from .kinds import keylist_refuted
+
+        return keylist_refuted(facts, x)
+    if kind == "envelope":
+        sigs, sgn = Sub(x, C("signatures")), Sub(x, C("signed"))
         for f in facts:
-            for t in _elems(f, x):
-                if hex_refuted(facts, t, 64):
-                    return True
+            if f[0] == "nottype" and f[1] in (x, sigs, sgn):
+                return True
+            if f[0] in ("notkeys", "notkeysin") and f[1] == x:
+                return True
+            if f[0] == "type" and f[1] == x and "dict" not in f[2]:
+                return True
         return False
     return False
 
